@@ -68,7 +68,9 @@ def emit (c : Case) : IO Unit := do
   | some s =>
     for f in Field.all do
       let n := if f.kind == .ptr then 1 else f.count
-      let vals := (List.range n).map (fun i => showVal (s f i))
+      -- after a load everything a loader may write is input-determined (the epilogue only sanitises it)
+      let ext := c.op == "load" && LoaderMayWrite f
+      let vals := (List.range n).map (fun i => if ext then "?" else showVal (s f i))
       IO.println s!"model {f.name} {" ".intercalate vals}"
   IO.println "done"
 
